@@ -473,6 +473,18 @@ TRIAGED_NAV = {
 }
 
 
+def _nonnull_by_construction(repo, f, c):
+    """why a navigator call cannot answer None, or None.  Known form: search_ancestor(...) that names every kind of node the search can
+    start in: nodes handed out by get_yield_exprs(self.tree_node) of a function execution live in a funcdef or a lambdef."""
+    if call_name(c) == 'search_ancestor' and all(isinstance(a, ast.Constant) for a in c.args):
+        kinds = {a.value for a in c.args}
+        comp = getattr(getattr(c, '_parent', None), '_parent', None)
+        gen = comp.generators[0] if isinstance(comp, (ast.ListComp, ast.GeneratorExp, ast.SetComp)) and comp.generators else None
+        if gen is not None and call_name(gen.iter) == 'get_yield_exprs' and {'funcdef', 'lambdef'} <= kinds:
+            return 'every yield expression of a function execution has a funcdef or lambdef ancestor, both are searched for'
+    return None
+
+
 def rule_g(repo, chk):
     chk.clause('C01.g', 'in the whole package, a value obtained from a parso navigator that can return None (derived from parso\'s own source) is '
                         'dereferenced only under a dominating None test (or the site is triaged with the reason None is impossible)')
@@ -520,6 +532,15 @@ def rule_g(repo, chk):
                 elif isinstance(p, ast.NamedExpr) and p.value is c:
                     vars_ = [p.target.id]
                 if not vars_:
+                    # stored into a container (tuple/list element, comprehension element, append): the None test cannot be followed
+                    # to the place where the element is unpacked and dereferenced, so the result has to be non-None by construction
+                    if isinstance(p, (ast.Tuple, ast.List, ast.Set, ast.Dict)) or (isinstance(p, (ast.ListComp, ast.GeneratorExp, ast.SetComp)) and p.elt is c) \
+                            or (isinstance(p, ast.Call) and call_name(p) in ('append', 'add', 'insert', 'extend') and c in p.args):
+                        why = _nonnull_by_construction(repo, f, c)
+                        chk.ob('C01.g', why is not None, c, 'result of `%s` (may be None) is stored in a container and unpacked elsewhere: it is never None by '
+                               'construction%s' % (short(c, 60), (' (%s)' % why) if why else ''),
+                               'no None test can follow the value through the container, and nothing makes None impossible', key='%s:%s|%s' % dkey)
+                        continue
                     chk.ob('C01.g', True, c, 'result of `%s` is not dereferenced here (compared / returned / passed on)' % short(c, 50))
                     continue
                 var = '/'.join(vars_)
@@ -915,5 +936,54 @@ def rule_k(repo, chk):
     chk.floor('C01.k', n, 30, '(dereferences of results of nullable package functions)')
 
 
+TRIAGED_UNBOUND = {
+    # (module, function, variable) -> why the read cannot happen before a binding although a path of the CFG says so
+    ('jedi.api.refactoring.extract', 'extract_function', 'output_var_str'):
+        'bound under `not has_ending_return_stmt` in the statement branch and read under the same two tests (has_ending_return_stmt has '
+        'two bindings, one per branch of `if is_expression`, so the correlation is not derived automatically)',
+    ('jedi.inference.filters', 'SpecialMethodFilter.SpecialMethodName.infer', 'builtin_func'):
+        'belief: SpecialMethodName objects are only created for names taken from the builtin class\'s own method table, so one filter has the name',
+    ('jedi.inference.gradual.conversion', '_stub_to_python_value_set', 'arguments'):
+        'read under `was_instance`, which is true only after one of the two branches that bind `arguments` ran (the second sets was_instance = True)',
+    ('jedi.inference.imports', 'import_module_by_names', 'value_set'):
+        'import_names is never empty: Importer.follow returns early for an empty import_path and the other callers pass literal tuples',
+    ('jedi.inference.value.iterable', 'comprehension_from_atom', 'cls'):
+        'the bracket of an atom that holds a comprehension is one of { ( [ (python grammar: atom)',
+}
+
+
+def rule_l(repo, chk):
+    chk.clause('C01.l', 'no read of a possibly unbound local (UnboundLocalError is an internal exception): in every function of the package, each '
+                        'read of a local is dominated by a binding on all non-exceptional paths from the entry, with same-text tests taken '
+                        'consistently; a read inside `try: ... except (UnboundLocalError|NameError|Exception)` is the EAFP form; the rest is triaged')
+    from ..lib import possibly_unbound
+    n = 0
+    nf = 0
+    for m in sorted(repo.modules.values(), key=lambda m: m.name):
+        for q, f in sorted(m.defs.items()):
+            if not isinstance(f, FUNC_TYPES):
+                continue
+            nf += 1
+            seen = set()
+            for node, name, w in possibly_unbound(f):
+                if (name) in seen:
+                    continue
+                st = node.ast
+                if isinstance(st, ast.stmt) and any(handler_types(h) & {'UnboundLocalError', 'NameError', 'Exception', 'BaseException', '*'}
+                                                    for t in enclosing_handlers(st, f) for h in t.handlers):
+                    continue
+                seen.add(name)
+                n += 1
+                tk = (m.name, q, name)
+                if tk in TRIAGED_UNBOUND:
+                    chk.ob('C01.l', True, st, '`%s` in %s: triaged (%s)' % (name, q, TRIAGED_UNBOUND[tk]))
+                    continue
+                chk.ob('C01.l', False, st, 'local `%s` of %s is bound on every path to this read' % (name, q), 'path without a binding: %s' % w,
+                       key='unbound|%s:%s|%s' % tk)
+    chk.floor('C01.l', nf, 1500, '(functions analysed)')
+    chk.notes['C01.l candidate reads examined'] = n
+    chk.exhaustive_rules.append('C01.l every function of the package')
+
+
 RULES = [('C01.a', rule_a), ('C01.b', rule_b), ('C01.c', rule_c), ('C01.d', rule_d), ('C01.e', rule_e), ('C01.f', rule_f),
-         ('C01.g', rule_g), ('C01.h', rule_h), ('C01.i', rule_i), ('C01.j', rule_j), ('C01.k', rule_k)]
+         ('C01.g', rule_g), ('C01.h', rule_h), ('C01.i', rule_i), ('C01.j', rule_j), ('C01.k', rule_k), ('C01.l', rule_l)]
